@@ -128,6 +128,9 @@ ARRAY_DOC_RE = re.compile(r'array|ndarray|sequence|list|tuple|Quantity|NDData|'
 CONTAINER_DOC_RE = re.compile(r'\b(dict|list|tuple)\b', re.I)
 
 
+UNITCONV = 'in-place unit conversion'
+
+
 class Site:
     """A root mutation sink (function, node, what) plus the call chain that
     leads to it from the function whose summary holds the site."""
@@ -422,6 +425,11 @@ class FuncAlias(Flow):
             if rebind_ok and k in ('Pi', 'Fi'):
                 continue
             st = site if site is not None else Site(self.f, node, what, chain)
+            if k != 'P' and st.what.startswith(UNITCONV):
+                # `<<=` mutates only when the object is a Quantity; fields that reach a private
+                # unit-attaching helper hold unit-stripped ndarrays (the package's convention,
+                # not decidable without types), so only caller parameters are tracked
+                continue
             if k in ('P', 'Pi'):
                 if n in ('self', 'cls'):
                     continue
@@ -454,7 +462,15 @@ class FuncAlias(Flow):
             val = self.ev(st.value, s)
             t = st.target
             if isinstance(st.op, ast.LShift):
-                # `x <<= unit` rebinding to a Quantity view: aliasing, not mutation
+                # `x <<= unit`: for an ndarray this rebinds the name to a new Quantity view
+                # (aliasing, no mutation); for a Quantity it converts the units IN PLACE.  A bare
+                # parameter that may be a Quantity therefore needs a dominating
+                # `not isinstance(x, Quantity)` guard.
+                if isinstance(t, ast.Name):
+                    cur = s.get(t.id, EMPTY)
+                    direct = frozenset(o for o in cur if o[0] == 'P' and o[2] == 0 and o[1] == t.id)
+                    if direct and not self._guarded_not_quantity(st, t.id):
+                        self.mutate(direct, st, 'in-place unit conversion (`<<=`) of a possible caller Quantity')
                 return s
             if isinstance(t, ast.Name):
                 cur = s.get(t.id, EMPTY)
@@ -545,6 +561,15 @@ class FuncAlias(Flow):
             s = dict(s)
             s[handler.name] = EMPTY
         return s
+
+    def _guarded_not_quantity(self, st, name):
+        from . import guards as G
+        g = G.guard_of(st, self.f.node)
+        for a in G.atoms(g):
+            if a.startswith(f'isinstance({name},') and 'Quantity' in a:
+                # the guard formula must contain the NEGATED atom
+                return G.satisfiable(G.conj([g, ('atom', a)])) is None
+        return False
 
     def _scalar_value(self, v):
         """RHS of an augmented assignment that proves the target is a python
